@@ -18,7 +18,7 @@ func init() {
 			"(close-removes) the matched path removes both entries; (locked, paired-writes) every access to either map, anywhere in non-test code, is under the pool mutex and the maps are written together; " +
 			"(registered-is-caller) the value registered is jsonrpc2.CtxService(ctx) of the connect request, under the verified node id, in both maps; " +
 			"(disconnect-hook) in server.ServeHTTP every path from the end of remote.Serve() to the function exit calls onDisconnect(remote) when the hook is set, and runPool binds the hook to CloseRemote of the served pool; " +
-			"(only-registry) vipnode_whitelist / vipnode_disconnect are only sent to services loaded from the registry. Round 2: (serve-returns) nothing that can block (directly, in callees, or deferred) lies between a failed ReadMessage and the return of Remote.Serve; no function but CloseRemote/connect deletes registry entries.",
+			"(only-registry) vipnode_whitelist / vipnode_disconnect are only sent to services loaded from the registry. Round 2: (serve-returns) nothing that can block (directly, in callees, or deferred) lies between a failed ReadMessage and the return of Remote.Serve; no function but CloseRemote/connect deletes registry entries. Round 5: serve-returns also requires the buffered per-id reply channel.",
 		NotDecided: []string{"not decided: a close racing an in-flight peer request; one connection authenticating as two host ids (the reverse map holds one id per connection)"},
 	}
 }
